@@ -134,7 +134,11 @@ impl MuxStream {
         trace!("received a frame");
         let new = self.psh_recvd_since + 1;
         self.psh_recvd_since = new;
-        if new >= self.rwnd_threshold {
+        // Once the task has dropped its end of the channel (`Finish`, `Reset`, window overrun,
+        // teardown) the peer sends nothing more on this flow and may already have re-used the
+        // flow ID: an `Acknowledge` for the frames still buffered here would be credited to
+        // that new stream.
+        if new >= self.rwnd_threshold && !self.rx_frame_rx.is_closed() {
             // Reset the counter
             self.psh_recvd_since = 0;
             // Send an `Acknowledge` frame
